@@ -63,7 +63,18 @@ struct State
   bool gaiOffline = false;
   std::map<std::string, long> counts;
   long fired = 0;
+  bool quiet = false;
+  bool monotone = false;
+  bool strict = false;
+  bool clobber = false;
+  int nextOrdinal = 0;
+  std::map<int, std::string> closedOnce; // fd -> label it had when the library closed it (until the number is reused)
 };
+
+int newOrdinal(State &s)
+{
+  return s.monotone ? s.nextOrdinal++ : static_cast<int>(s.ordinals.size());
+}
 
 State &S()
 {
@@ -123,6 +134,7 @@ bool takeDirectivePoll(pollfd *fds, nfds_t n, Directive &out)
 int nextCall(char const *sys)
 {
   auto &s = S();
+  if(s.quiet) return 0;
   long idx = s.calls++;
   ++s.counts[sys];
   auto it = s.faults.find(idx);
@@ -138,7 +150,7 @@ int nextCall(char const *sys)
 void logLine(std::string line)
 {
   auto &s = S();
-  if(s.logOn) s.log.push_back(std::move(line));
+  if(s.logOn && !s.quiet) s.log.push_back(std::move(line));
 }
 
 std::string resStr(long r, int err)
@@ -169,6 +181,9 @@ void reset()
   s.counts.clear();
   s.hangExits = true;
   s.hangReturns = false;
+  s.quiet = false;
+  s.nextOrdinal = 0;
+  s.closedOnce.clear();
 }
 
 void virtual_time(bool on) { Guard g(S().mtx); S().virt = on; }
@@ -210,6 +225,10 @@ std::vector<int> open_fds() { Guard g(S().mtx); return {S().open.begin(), S().op
 std::vector<std::string> ledger_errors() { Guard g(S().mtx); return S().ledgerErr; }
 void ledger_track(bool on) { Guard g(S().mtx); S().ledgerOn = on; }
 void gai_offline(bool on) { Guard g(S().mtx); S().gaiOffline = on; }
+void quiet(bool on) { Guard g(S().mtx); S().quiet = on; }
+void monotone_ordinals(bool on) { Guard g(S().mtx); S().monotone = on; }
+void ledger_strict(bool on) { Guard g(S().mtx); S().strict = on; }
+void clobber_errno(bool on) { Guard g(S().mtx); S().clobber = on; }
 long count(std::string const &sys) { Guard g(S().mtx); return S().counts[sys]; }
 long scripted_fired() { Guard g(S().mtx); return S().fired; }
 
@@ -477,7 +496,8 @@ int socket(int domain, int type, int protocol)
   {
     Guard g(s.mtx);
     if(r >= 0) {
-      s.ordinals[r] = static_cast<int>(s.ordinals.size());
+      s.ordinals[r] = newOrdinal(s);
+      s.closedOnce.erase(r);
       s.names.erase(r);
       if(s.ledgerOn) s.open.insert(r);
     }
@@ -510,7 +530,8 @@ int accept(int fd, struct sockaddr *addr, socklen_t *alen)
   {
     Guard g(s.mtx);
     if(r >= 0) {
-      s.ordinals[r] = static_cast<int>(s.ordinals.size());
+      s.ordinals[r] = newOrdinal(s);
+      s.closedOnce.erase(r);
       s.names.erase(r);
       if(s.ledgerOn) s.open.insert(r);
     }
@@ -529,11 +550,19 @@ int close(int fd)
     Guard g(s.mtx);
     if(s.ordinals.count(fd)) {
       if(s.open.count(fd)) {
-        logLine("close " + labelLocked(fd));
+        // the close line is part of the ledger, not of the faultable call trace: logged even when quiet
+        if(s.logOn) s.log.push_back("close " + labelLocked(fd));
+        s.closedOnce[fd] = labelLocked(fd);
         s.open.erase(fd);
         s.ordinals.erase(fd);
         s.names.erase(fd);
       }
+    } else if(s.closedOnce.count(fd)) {
+      s.ledgerErr.push_back("double close " + s.closedOnce[fd]);
+      if(s.logOn) s.log.push_back("close! double " + s.closedOnce[fd]);
+    } else if(s.strict) {
+      s.ledgerErr.push_back("foreign close " + std::to_string(fd));
+      if(s.logOn) s.log.push_back("close! foreign " + std::to_string(fd));
     }
   }
   return fn(fd);
@@ -638,6 +667,7 @@ int getaddrinfo(char const *node, char const *service, struct addrinfo const *hi
     };
     logLine("getaddrinfo node=" + hx(node) + " serv=" + hx(service) + " flags=" + std::to_string(hints ? hints->ai_flags : 0) +
             " -> " + std::to_string(r));
+    if(s.clobber && r == 0) errno = ENOTTY;
   }
   return r;
 }
@@ -653,6 +683,7 @@ int getnameinfo(struct sockaddr const *sa, socklen_t salen, char *host, socklen_
   {
     Guard g(s.mtx);
     logLine("getnameinfo -> " + std::to_string(r));
+    if(s.clobber && r == 0) errno = ENOTTY;
   }
   return r;
 }
